@@ -373,7 +373,7 @@ func c07(c *fw.Ctx) {
 	c.Rule("all 1280 (version, level, mask) configurations, each with N payloads (modes rotate over numeric/alphanumeric/byte UTF-8/kanji, a third of the byte payloads in another declared character set of the registry - ECI header, count field = bytes of that encoding -, length capacity, capacity-1 or random; a third of the payloads as GS1 symbols: FNC1 in first position, after the ECI header where a character set is declared): library Encoder_encode with forced version and mask vs qrref.BuildMatrix module for module (and, for every other (version, level), three symbols with the mask left to the encoder, compared under the mask it reports and compared AGAIN after the later encodes), and the library decoder on the qrref-built symbol (text, raw data codewords, level); plus the decoder's per-version tables and all 32+34 BCH words; distinct = distinct (version, level, mask, payload)")
 	c.Assume("qrref (harness/ref/qrref) is the transcription of ISO/IEC 18004: tables typed independently, geometry/BCH/capacities computed; anchored on Annex I and published capacities in the start-up self-test")
 	c.Assume("automatic mask selection is not compared (the N3 penalty rule is ambiguous in the standard); masks are forced")
-	reps := c.Pick(6, 60)
+	reps := c.Pick(6, 240)
 	c.Run("tables", func(r *fw.Rec) { c07Tables(r) })
 	for v := 1; v <= 40; v++ {
 		for _, l := range qrAllLevels {
